@@ -11,6 +11,7 @@ import Rpcx.Driver.Mux
 import Rpcx.Driver.Server
 import Rpcx.Driver.Ingress
 import Rpcx.Driver.Pipe
+import Rpcx.Driver.Gateway
 /-
   Line-protocol driver: one operation per input line, one canonical output line per
   operation.  Runs the executable definitions of the model (generated and hand-written);
@@ -37,6 +38,7 @@ def step (line : String) : String :=
   | "srv" :: ws => cmdSrv ws
   | "ing" :: ws => cmdIng ws
   | "pipe" :: ws => cmdPipe ws
+  | "q" :: ws => cmdQ ws
   | _ => "bad-op"
 
 partial def loop (hin : IO.FS.Stream) (hout : IO.FS.Stream) : IO Unit := do
